@@ -16,6 +16,9 @@ import (
 // with ample slots, transfers never dialled (each accepted offer is "being received" for
 // the 15 s the node waits for the stream). At every offer: a key may be marked accepted
 // only if no earlier accepted offer that still waits for its stream holds it.
+// A third alphabet (c09SeqEventsMixed) makes the offerer's negotiated version a dimension: peers
+// negotiating version 0 and version 1 offer the same keys in every order to the one node that
+// speaks {0,1}, with completed and failed transfers in between.
 
 var c09SeqEvents = []string{"offer:12", "offer:23", "offer:2", "wait:4", "wait:12"}
 
@@ -30,26 +33,113 @@ type c09SeqCase struct {
 	Seq  []string `json:"sequence"`
 }
 
+// third alphabet: the offerer's negotiated version is a dimension. The node speaks {0,1};
+// "offer:K" comes from a peer that negotiates version 1 (per-key codes), "offer:K:v0" from a
+// peer that negotiates version 0 (bit list). A version-0 reply has no way to say "being
+// received" and the statement does not ask it to: a version-0 offer may be accepted for a key in
+// flight (and is then one more transfer in progress that holds the key). A version-1 reply must
+// not mark a key accepted while ANY earlier accepted offer - whichever version it was negotiated
+// with - still waits for its stream.
+//
+// "xbad" is a failed transfer: the newest offer that still waits for its stream is dialled and
+// sent one item too many; the stream is discarded and that offer is over at once (its keys are no
+// longer being received by it), while the older ones go on waiting.
+var c09SeqEventsMixed = []string{"offer:2", "offer:12", "offer:2:v0", "offer:23:v0", "xfer", "xbad", "wait:4", "wait:12"}
+
+// Sites of the in-flight clause in the sequences.
+const (
+	c09SiteOverlap = "v1:overlapping-offers" // a transfer negotiated with version 1 holds the key
+	// every transfer in progress that holds the key was negotiated with version 0
+	c09SiteOverlapV0 = "v1:overlapping-offers:transfer-in-progress-negotiated-v0"
+	// The key was accepted more than once (only a version-0 reply can accept a key that is
+	// being received), so several transfers shared the one mark, and a transfer that has ended
+	// since the key was last accepted may have taken the mark with it (its deferred un-mark)
+	// although another one still waits for its stream.
+	c09SiteSharedMark = "v1:overlapping-offers:mark-shared-after-v0-acceptance-removed-by-end-of-other-transfer"
+)
+
+// c09Acc: one accepted offer of the sequence, as the reference sees it.
+type c09Acc struct {
+	keys   string
+	ver    int
+	at     time.Time
+	connId uint16
+	// set by "xfer" / "xbad": the stream was dialled at dialAt and had been handed over (failed:
+	// discarded) by doneAt
+	completed, failed bool
+	dialAt, doneAt    time.Time
+}
+
+// inProgress: accepted, its stream neither handed over nor given up waiting for.
+func (o *c09Acc) inProgress(now time.Time, wait time.Duration) bool {
+	return !o.completed && now.Sub(o.at) < wait
+}
+
+// unmark: the interval in which the offer's receive goroutine ends and un-marks its keys: at+wait
+// when nobody dialled; after a completed transfer the goroutine waits once more for a stream,
+// from some moment between the dial and the end of the transfer; after a discarded stream it
+// ends there and then.
+func (o *c09Acc) unmark(wait time.Duration) (lo, hi time.Time) {
+	if o.failed {
+		return o.dialAt, o.doneAt
+	}
+	if o.completed {
+		return o.dialAt.Add(wait), o.doneAt.Add(wait)
+	}
+	return o.at.Add(wait), o.at.Add(wait)
+}
+
+func c09Holds(keys string, k byte) bool { return strings.IndexByte(keys, k) >= 0 }
+
+// c09SeqSite names the class of an in-flight violation for key k at time now.
+func c09SeqSite(hist []*c09Acc, k byte, now time.Time, wait time.Duration) string {
+	var lastAccepted time.Time
+	holderV1 := false
+	for _, o := range hist {
+		if !c09Holds(o.keys, k) {
+			continue
+		}
+		if o.at.After(lastAccepted) {
+			lastAccepted = o.at
+		}
+		if o.inProgress(now, wait) && o.ver == 1 {
+			holderV1 = true
+		}
+	}
+	for _, o := range hist {
+		if !c09Holds(o.keys, k) || o.inProgress(now, wait) {
+			continue
+		}
+		if lo, hi := o.unmark(wait); !lo.After(now) && hi.After(lastAccepted) {
+			return c09SiteSharedMark
+		}
+	}
+	if holderV1 {
+		return c09SiteOverlap
+	}
+	return c09SiteOverlapV0
+}
+
 func c09SeqRun(r *mc.Report, nw *c09Net, seq []string) {
 	c := c09SeqCase{"sequence", seq}
 	bn, _ := c09Node(nw, 6)
 	defer bn.Close()
 	self := bn.P.Self().ID()
 	key := map[byte][]byte{'1': c09Key(self, 1, 0), '2': c09Key(self, 2, 0), '3': c09Key(self, 3, 0)}
-	type pending struct {
-		keys   string
-		at     time.Time
-		connId uint16
-	}
-	var open []pending
+	var hist []*c09Acc // every accepted offer, oldest first
 	wait := time.Duration(portalwire.VerifDefaultUTPConnTimeout)
 	var trace []string
 	for _, ev := range seq {
 		p := strings.Split(ev, ":")
-		if p[0] == "xfer" {
+		if p[0] == "xfer" || p[0] == "xbad" {
 			now := time.Now()
-			for i, o := range open {
-				if now.Sub(o.at) >= wait {
+			bad := p[0] == "xbad"
+			for i := range hist {
+				o := hist[i]
+				if bad {
+					o = hist[len(hist)-1-i]
+				}
+				if !o.inProgress(now, wait) {
 					continue
 				}
 				if st, err := nw.dial(o.connId); err == nil {
@@ -57,12 +147,17 @@ func c09SeqRun(r *mc.Report, nw *c09Net, seq []string) {
 					for range o.keys {
 						items = append(items, []byte{0x5a})
 					}
+					if bad {
+						items = append(items, []byte{0x77})
+					}
 					st.Write(context.Background(), portalwire.VerifEncodeContents(items))
 					st.Close()
 					time.Sleep(time.Second)
 					synctest.Wait()
-					c09Drain(bn)
-					open = append(open[:i:i], open[i+1:]...)
+					if got := c09Drain(bn); bad && len(got) != 0 {
+						r.Violation("different-item-count-discarded", fmt.Sprintf("v%d:more:overlapping-offers", o.ver), fmt.Sprintf("after %v: %d keys accepted, %d items streamed, yet %d element(s) reached the validation queue", trace, len(o.keys), len(items), len(got)), c)
+					}
+					o.completed, o.failed, o.dialAt, o.doneAt = true, bad, now, time.Now()
 				}
 				break
 			}
@@ -77,10 +172,15 @@ func c09SeqRun(r *mc.Report, nw *c09Net, seq []string) {
 			trace = append(trace, ev)
 			continue
 		}
+		ver := 1
+		if len(p) > 2 && p[2] == "v0" {
+			ver = 0
+		}
+		vtag := fmt.Sprintf("v%d", ver)
 		now := time.Now()
 		inFlight := map[byte]bool{}
-		for _, o := range open {
-			if now.Sub(o.at) < wait {
+		for _, o := range hist {
+			if o.inProgress(now, wait) {
 				for i := range o.keys {
 					inFlight[o.keys[i]] = true
 				}
@@ -93,19 +193,19 @@ func c09SeqRun(r *mc.Report, nw *c09Net, seq []string) {
 		var reply []byte
 		var err error
 		if msg, site := panicsTo(func() {
-			reply, err = bn.P.VerifHandleOffer(c09PeerRec([]int{1}), c09PeerAddr, &portalwire.Offer{ContentKeys: keys})
+			reply, err = bn.P.VerifHandleOffer(c09PeerRec([]int{ver}), c09PeerAddr, &portalwire.Offer{ContentKeys: keys})
 		}); msg != "" {
 			r.Violation("no-panic", site, "handleOffer panicked: "+msg, c)
 			break
 		}
 		synctest.Wait()
 		if err != nil {
-			r.Violation("one-verdict-per-key", "v1:handler-error:overlapping-offers", err.Error(), c)
+			r.Violation("one-verdict-per-key", vtag+":handler-error:overlapping-offers", err.Error(), c)
 			break
 		}
-		acc, shown, connId, derr := c09Verdicts(1, reply)
+		acc, shown, connId, derr := c09Verdicts(ver, reply)
 		if derr != nil || len(acc) != len(keys) {
-			r.Violation("one-verdict-per-key", "v1:verdict-count:overlapping-offers", fmt.Sprintf("%d keys, verdicts %s (%v)", len(keys), shown, derr), c)
+			r.Violation("one-verdict-per-key", vtag+":verdict-count:overlapping-offers", fmt.Sprintf("%d keys, verdicts %s (%v)", len(keys), shown, derr), c)
 			break
 		}
 		accepted := ""
@@ -113,13 +213,20 @@ func c09SeqRun(r *mc.Report, nw *c09Net, seq []string) {
 			if !a {
 				continue
 			}
-			if inFlight[p[1][i]] {
-				r.Violation("accepted-only-if-not-already-being-received", "v1:overlapping-offers", fmt.Sprintf("after %v the offer [%s] got verdicts %s: key k%c is marked accepted while an earlier accepted offer still waits for its stream", trace, p[1], shown, p[1][i]), c)
+			if ver == 1 && inFlight[p[1][i]] { // (the bit list of version 0 cannot decline a key for being received, and need not)
+				site := c09SeqSite(hist, p[1][i], now, wait)
+				var holders []string
+				for _, o := range hist {
+					if c09Holds(o.keys, p[1][i]) && o.inProgress(now, wait) {
+						holders = append(holders, fmt.Sprintf("[%s] accepted %v ago by a version-%d reply, id %04x", o.keys, now.Sub(o.at), o.ver, o.connId))
+					}
+				}
+				r.Violation("accepted-only-if-not-already-being-received", site, fmt.Sprintf("after %v the version-1 offer [%s] got verdicts %s (connection id %04x): key k%c is marked accepted while an earlier accepted offer still waits for its stream: %s", trace, p[1], shown, connId, p[1][i], strings.Join(holders, "; ")), c)
 			}
 			accepted += string(p[1][i])
 		}
 		if accepted != "" {
-			open = append(open, pending{accepted, now, connId})
+			hist = append(hist, &c09Acc{keys: accepted, ver: ver, at: now, connId: connId})
 		}
 		trace = append(trace, fmt.Sprintf("%s->%s", ev, shown))
 	}
@@ -134,19 +241,36 @@ func c09SeqLen(thorough bool) int {
 	return 7
 }
 
-// c09Sequences enumerates every sequence of the given length; worker i takes every Of-th.
-func c09Sequences(r *mc.Report, e *Env, nw *c09Net, over func() bool) {
-	c09SequencesOver(r, e, nw, over, c09SeqEvents, c09SeqLen(e.Thorough()))
-	c09SequencesOver(r, e, nw, over, c09SeqEventsXfer, c09SeqLen(e.Thorough())-1)
+func c09SeqLenMixed(thorough bool) int {
+	if thorough {
+		return 6
+	}
+	return 5
 }
 
-func c09SequencesOver(r *mc.Report, e *Env, nw *c09Net, over func() bool, c09SeqEvents []string, n int) {
+// c09Sequences enumerates every sequence of the given length; worker i takes every Of-th.
+func c09Sequences(r *mc.Report, e *Env, nw *c09Net, over func() bool) {
+	anyOffer := func(ev string) bool { return strings.HasPrefix(ev, "offer") }
+	c09SequencesOver(r, e, nw, over, c09SeqEvents, c09SeqLen(e.Thorough()), anyOffer, "offer_sequences")
+	c09SequencesOver(r, e, nw, over, c09SeqEventsXfer, c09SeqLen(e.Thorough())-1, anyOffer, "offer_sequences")
+	// offerers of both versions: only a version-1 offer is judged for keys being received, so the
+	// last event is one (a sequence ending otherwise adds nothing over its prefix)
+	v1Offer := func(ev string) bool { return strings.HasPrefix(ev, "offer") && !strings.HasSuffix(ev, ":v0") }
+	c09SequencesOver(r, e, nw, over, c09SeqEventsMixed, c09SeqLenMixed(e.Thorough()), v1Offer, "offer_sequences_mixed_versions")
+	if e.Shard == 0 {
+		r.Set("mixed_version_sequence_alphabet", c09SeqEventsMixed)
+		r.Set("mixed_version_sequence_length", c09SeqLenMixed(e.Thorough()))
+		r.Sample(c09SeqCase{"sequence", []string{"offer:2:v0", "wait:4", "offer:2", "xfer", "offer:2"}})
+	}
+}
+
+func c09SequencesOver(r *mc.Report, e *Env, nw *c09Net, over func() bool, c09SeqEvents []string, n int, lastOK func(string) bool, counter string) {
 	idx := make([]int, n)
 	count := 0
 	for {
 		// sequences without an offer in the last two events add nothing over their prefix
 		last := c09SeqEvents[idx[n-1]]
-		if strings.HasPrefix(last, "offer") && e.Mine(count) {
+		if lastOK(last) && e.Mine(count) {
 			if over() {
 				r.NotExhaustive("internal deadline reached in the overlapping-offer sequences")
 				return
@@ -156,7 +280,7 @@ func c09SequencesOver(r *mc.Report, e *Env, nw *c09Net, over func() bool, c09Seq
 				seq[i] = c09SeqEvents[k]
 			}
 			c09SeqRun(r, nw, seq)
-			r.Count("offer_sequences", 1)
+			r.Count(counter, 1)
 		}
 		count++
 		k := n - 1
